@@ -292,9 +292,10 @@ example :
 /-- **resolve_erase** — execution's walk (which resolvers run, which `__typename`s are answered, which
     abstract results cannot be resolved) is the same against the erased schema, for every validated
     selection tree and EVERY application behaviour `world` — including applications that return
-    objects of gated types through ungated abstract fields. -/
+    objects of gated types through ungated abstract fields, and applications whose `IsTypeOf` functions
+    overlap (a value claimed by a gated and an ungated implementation at once, in either order). -/
 theorem resolve_erase (S : Schema) (F : Feats) (hA : Accepted S = true)
-    (world : String → String → Option String) (sels : Sels) (objT : String)
+    (world : String → String → Option (List String)) (sels : Sels) (objT : String)
     (ho : S.notHidden F objT = true) (hc : condsKnown (view S F) sels = true) :
     exec (view S F) world objT sels = exec (view (erase S F) top) world objT sels :=
   exec_erase hA world sels objT ho hc
@@ -303,13 +304,13 @@ theorem resolve_erase (S : Schema) (F : Feats) (hA : Accepted S = true)
     resolvers of fields that exist and pass the feature test on a type that passes it; `__typename`
     and type resolution never name a hidden type. -/
 theorem gated_never_resolved (S : Schema) (F : Feats) (hA : Accepted S = true) (hR : RootsUngated S = true)
-    (world : String → String → Option String) (sels : Sels) :
+    (world : String → String → Option (List String)) (sels : Sels) :
     ∀ e ∈ exec (view S F) world S.query sels, EventVisible S F e :=
   exec_events_visible hA world sels S.query (notHidden_of_visible (query_visible hA hR))
 
 /-- The same for a mutation (executed on the root the view reports): a gated root type never runs. -/
 theorem gated_never_resolved_mutation (S : Schema) (F : Feats) (hA : Accepted S = true)
-    (world : String → String → Option String) (sels : Sels) (m : String)
+    (world : String → String → Option (List String)) (sels : Sels) (m : String)
     (hm : (view S F).mutationType = some m) :
     ∀ e ∈ exec (view S F) world m sels, EventVisible S F e :=
   exec_events_visible hA world sels m (notHidden_of_visible (filtered_root_visible hm))
@@ -323,9 +324,55 @@ theorem gated_never_found (S : Schema) (F : Feats) (hA : Accepted S = true) (hR 
 /-- Non-vacuity: an application that answers `node` with a `Secret` object while the feature is off:
     the resolver of `Query.node` runs, the result cannot be resolved, `Secret.id` never runs. -/
 example :
-    exec (view demo noF) (fun _ _ => some "Secret") "Query"
+    exec (view demo noF) (fun _ _ => some ["Secret"]) "Query"
       (.cons "field" "node" (.cons "field" "id" .nil (.cons "typename" "" .nil .nil)) .nil)
       = [.resolve "Query" "node", .unresolvable "Node" "Secret"] := by
+  decide
+
+/-- **resolve_type_erase** — type resolution itself: for every abstract type a request can hold and
+    every set of object types claiming the value, the resolved object type is the erased schema's
+    (and is visible). -/
+theorem resolve_type_erase (S : Schema) (F : Feats) (hA : Accepted S = true) (abstract : String)
+    (claimed : List String) (ha : S.notHidden F abstract = true) :
+    (view (erase S F) top).resolveType abstract claimed = (view S F).resolveType abstract claimed ∧
+    ∀ rt, (view S F).resolveType abstract claimed = some rt → S.visible F rt = true := by
+  refine ⟨?_, ?_⟩
+  · simp only [View.resolveType, view_resolveCandidates, resolveCandidates_erase hA ha]
+  · intro rt h
+    simp only [View.resolveType, view_resolveCandidates] at h
+    exact spreadTypes_closed hA ha rt
+      (by simpa [resolveCandidates_eq_spreadTypes] using List.mem_of_find?_eq_some h)
+
+/-- `interface Node`, `Secret @a : Node` registered BEFORE `Pub : Node`. -/
+def demoOverlap : Schema :=
+  { types := [
+      mkT .scalar "ID" [],
+      mkT .interface "Node" [] [idF],
+      mkT .object "Secret" ["a"] [idF] ["Node"],
+      mkT .object "Pub" [] [idF] ["Node"],
+      mkT .object "Query" [] [{ name := "node", ty := .named "Node", req := [], args := [] }]],
+    query := "Query", mutation := none, subscription := none }
+
+/-- Non-vacuity with overlapping `IsTypeOf`: a value claimed by the gated `Secret` (registered first)
+    and by `Pub` resolves to `Pub` with the feature off — as in the erased schema — and to `Secret`
+    with it on; `Pub.id` runs, `Secret.id` does not. -/
+example :
+    Accepted demoOverlap = true ∧
+    (view demoOverlap noF).resolveType "Node" ["Secret", "Pub"] = some "Pub" ∧
+    (view (erase demoOverlap noF) top).resolveType "Node" ["Secret", "Pub"] = some "Pub" ∧
+    (view demoOverlap onlyA).resolveType "Node" ["Secret", "Pub"] = some "Secret" ∧
+    exec (view demoOverlap noF) (fun p _ => if p == "Query" then some ["Secret", "Pub"] else none) "Query"
+      (.cons "field" "node" (.cons "field" "id" .nil .nil) .nil)
+      = [.resolve "Query" "node", .resolve "Pub" "id"] := by
+  decide
+
+/-- The order of the two tests matters (the shape of seeded change C13-9): stopping at the first
+    implementation that claims the value and only then testing its features makes a value claimed by a
+    gated implementation registered first unresolvable with the feature off, although the erased
+    schema resolves it to the ungated implementation. -/
+theorem resolve_claim_first_differs :
+    resolveTypeClaimFirst demoOverlap noF "Node" ["Secret", "Pub"] = none ∧
+    resolveTypeClaimFirst (erase demoOverlap noF) top "Node" ["Secret", "Pub"] = some "Pub" := by
   decide
 
 /-! ## Enabling a feature -/
